@@ -35,7 +35,10 @@ pub fn exact_det_rank(a: &Rows<Q>) -> (Q, usize) {
 fn to_q(x: f64) -> Option<Q> {
     // exact conversion of small dyadic floats
     let s = x * 1024.0;
-    if s.fract() == 0.0 && s.abs() < 1e12 { Some(Q::new(s as i128, 1024)) } else { None }
+    if s.fract() == 0.0 && s.abs() < 1e12 { return Some(Q::new(s as i128, 1024)); }
+    // dyadic values with up to 24 fractional bits and magnitude below 2^20 (numerators below 2^44)
+    let s = x * 16777216.0;
+    if s.fract() == 0.0 && x.abs() < 1048576.0 { Some(Q::new(s as i128, 16777216)) } else { None }
 }
 
 fn res_vec<T: Sc>(r: &Result<Vector<T>, &'static str>) -> String {
@@ -230,7 +233,23 @@ fn detinv_f(t: &mut Toks, cx: &mut Ctx) -> String {
                 cx.meta("rank_deficiency", n - rank);
                 let scale: f64 = (0..n).map(|i| (0..n).map(|j| a[(i, j)].abs()).fold(0.0, f64::max).max(1e-300)).product();
                 match guarded(|| a.determinant()) {
-                    Ok(x) => cx.check((x - det.to_f64()).abs() <= 1e-10 * scale.max(det.to_f64().abs()), &format!("determinant {} far from exact {}", x, det.to_f64())),
+                    Ok(x) => { cx.check((x - det.to_f64()).abs() <= 1e-10 * scale.max(det.to_f64().abs()), &format!("determinant {} far from exact {}", x, det.to_f64()));
+                        // the bound of theorem C02F.determinant_backward evaluated on this run: d = (1+theta) det(A + dA), |theta| <= g_n,
+                        // |dA| <= g_(n-1) P^T|L||U|; to first order |det(A + dA) - det A| <= sum_ij |cof_ij(A)| |dA_ij| (exact cofactors over Q),
+                        // doubled for the higher-order terms
+                        if n <= 4 && x.is_finite() { if let Ok(Some(cof)) = guarded(|| exact_cofactors(&rows)) {
+                            let mut lu = a.clone();
+                            if let Ok((_, perm)) = guarded(|| lu.lu_decomp_in_place()) {
+                                let uu = f64::EPSILON / 2.0; let g = |k: usize| 1.01 * (k as f64) * uu;
+                                // W = |L||U| (rows of P A), un-permuted to rows of A
+                                let w = |r: usize, c: usize| -> f64 { (0..n).map(|k| { let l = if k < r { lu[(r, k)].abs() } else if k == r { 1.0 } else { 0.0 }; let u_ = if k <= c { lu[(k, c)].abs() } else { 0.0 }; l * u_ }).sum() };
+                                let mut sens = 0.0f64;
+                                for i in 0..n { let r = (0..n).find(|r| perm[(*r, i)] == 1.0).unwrap_or(i); for j in 0..n { sens += cof[i][j].to_f64().abs() * w(r, j); } }
+                                let bound = 2.0 * (g(n) * det.to_f64().abs() + (1.0 + g(n)) * g(n.saturating_sub(1)) * sens) + 1e-300;
+                                cx.meta("det_backward_bound_checked", 1);
+                                cx.check((x - det.to_f64()).abs() <= bound, &format!("determinant: |d - det A| = {:e} exceeds the backward-stability bound {:e} of theorem determinant_backward (g_n |det| + g_(n-1) sum |cof_ij| (P^T|L||U|)_ij)", (x - det.to_f64()).abs(), bound));
+                            } } }
+                    }
                     Err(c) => cx.fail(format!("determinant panicked ({})", c)),
                 }
                 if !det.is_zero() {
@@ -279,6 +298,18 @@ fn solve_ns<T: Sc>(t: &mut Toks, cx: &mut Ctx) -> String {
         else if part.contains("nan") || part.contains("7ff0000000000000") || part.contains("fff0000000000000") { cx.fail(format!("{}: non-finite result on a nonsingular system{}", name, tag)); }
     }
     out
+}
+
+/// exact cofactor matrix over Q (orders <= 4); None on overflow of the harness rationals
+fn exact_cofactors(a: &Rows<Q>) -> Option<Vec<Vec<Q>>> {
+    let n = a.len();
+    let mut c = vec![vec![Q::int(0); n]; n];
+    for i in 0..n { for j in 0..n {
+        let minor: Rows<Q> = (0..n).filter(|r| *r != i).map(|r| (0..n).filter(|k| *k != j).map(|k| a[r][k]).collect()).collect();
+        let d = if n == 1 { Q::int(1) } else { exact_det_rank(&minor).0 };
+        c[i][j] = if (i + j) % 2 == 0 { d } else { -d };
+    } }
+    Some(c)
 }
 
 /// exact arithmetic in Q(i) for the complex oracle
@@ -390,6 +421,21 @@ pub fn gen(rng: &mut Rng, tier: Tier, out: &mut Vec<String>) {
             out.push(format!("solve c {} {}", rows_str(&gc, n, n), gen_vec_str::<Cmplx>(rng, n, 0, 1)));
         }
     } } }
+    // nearly singular systems with a consistent right-hand side of moderate solution: A = u v^T + d R with d = 10^[-9,-3],
+    // b = A x0, |x0| = O(1). A backward-stable elimination leaves a residual of the order of eps |A||x| whatever the
+    // conditioning; closed-form shortcuts (Cramer, adjugate) and dropped pivoting do not
+    for _ in 0..(if tier == Tier::Quick { 40 } else { 600 }) {
+        let n = 2 + rng.below(5);
+        let u: Vec<f64> = (0..n).map(|_| rng.f_general(0.5)).collect(); let v: Vec<f64> = (0..n).map(|_| rng.f_general(0.5)).collect();
+        let d = 10f64.powf(-3.0 - 6.0 * rng.unit());
+        let a: Vec<Vec<f64>> = (0..n).map(|i| (0..n).map(|j| u[i] * v[j] + d * rng.f_general(0.3)).collect()).collect();
+        let x0: Vec<f64> = (0..n).map(|_| (1.0 + rng.unit()) * if rng.chance(50) { -1.0 } else { 1.0 }).collect();
+        let b: Vec<f64> = (0..n).map(|i| (0..n).map(|j| a[i][j] * x0[j]).sum()).collect();
+        out.push(format!("solve f {} {}", rows_str(&a, n, n), wr_vec(&b)));
+        if n <= 3 { let ac: Vec<Vec<Cmplx>> = a.iter().enumerate().map(|(i, r)| r.iter().enumerate().map(|(j, x)| Cmplx::new(*x, if (i + j) % 2 == 0 { 0.25 * *x } else { -0.5 * *x })).collect()).collect();
+            let bc: Vec<Cmplx> = (0..n).map(|i| { let mut s = Cmplx::new(0.0, 0.0); for j in 0..n { s += ac[i][j] * Cmplx::new(x0[j], 0.5); } s }).collect();
+            out.push(format!("solve c {} {}", rows_str(&ac, n, n), wr_vec(&bc))); }
+    }
     // nonsingular but singular to working precision: the first row is (p, 1, 0, ...) and every later row starts
     // (1, fl(1/p), ...): the elimination of column 0 leaves fl(t - fl(fl(1/p) * 1)) = 0 in column 1 of EVERY later
     // row, although t = fl(1/p) != 1/p, so that exactly det != 0 (the other columns are the identity pattern plus noise).
@@ -427,6 +473,16 @@ pub fn gen_c02(rng: &mut Rng, tier: Tier, out: &mut Vec<String>) {
         out.push(format!("detinv f {}", rows_str(&a, n, n)));
         if class < 4 { let a = gen_square::<Cmplx>(rng, n, class); out.push(format!("detinv c {}", rows_str(&a, n, n))); }
     } } }
+    // nearly rank-one matrices with dyadic entries (exact determinant and cofactors available): x y^T plus a perturbation of
+    // relative size 2^-10 .. 2^-20; closed-form expansions cancel here, a pivoted elimination does not
+    for _ in 0..(if tier == Tier::Quick { 40 } else { 600 }) {
+        let n = 2 + rng.below(3);
+        let (bits, top) = if n <= 3 { (*rng.pick(&[16i32, 20, 24]), 30i64) } else { (8, 12) };
+        let x: Vec<f64> = (0..n).map(|_| rng.range(1, top) as f64).collect(); let y: Vec<f64> = (0..n).map(|_| rng.range(1, top) as f64 * if rng.chance(30) { -1.0 } else { 1.0 }).collect();
+        let sc = 2f64.powi(bits);
+        let a: Vec<Vec<f64>> = (0..n).map(|i| (0..n).map(|j| x[i] * y[j] + (rng.range(-900, 900) as f64) / sc).collect()).collect();
+        out.push(format!("detinv f {}", rows_str(&a, n, n)));
+    }
     // all-zero matrices and non-square shapes
     for n in 1..=4usize { out.push(format!("detinv q {}", rows_str(&vec![vec![Q::int(0); n]; n], n, n))); out.push(format!("detinv f {}", rows_str(&vec![vec![0.0f64; n]; n], n, n))); }
     for (r, c) in [(2usize, 3usize), (3, 2), (0, 0), (1, 2)] { out.push(format!("detinv q {}", gen_mat_str::<Q>(rng, r, c, 10, 0))); }
